@@ -104,8 +104,106 @@ func searchCase(c *fw.Ctx, r *rand.Rand, i int, budget float64, maxDepth int) (r
 	return root, cfg, depth, true
 }
 
+// moveListCase: the move-ordering queue the searches iterate over must hand out every move exactly once,
+// in non-increasing priority, with the preferred move first (a move lost or duplicated by the queue
+// changes the explored set, hence the minimax value).
+func moveListCase(c *fw.Ctx, r *rand.Rand) {
+	p := randomHist(r, 60).Final()
+	pos, err := adapt.Position(p)
+	if err != nil {
+		return
+	}
+	moves := pos.PseudoLegalMoves(adapt.BColor(p.White))
+	if len(moves) == 0 {
+		return
+	}
+	prios := map[board.Move]board.MovePriority{}
+	for _, m := range moves {
+		switch r.Intn(4) {
+		case 0:
+			prios[m] = 0 // many ties
+		case 1:
+			prios[m] = board.MovePriority(r.Intn(3))
+		default:
+			prios[m] = board.MovePriority(r.Intn(2000) - 1000)
+		}
+	}
+	fn := func(m board.Move) board.MovePriority { return prios[m] }
+	var first board.Move
+	useFirst := r.Intn(2) == 0
+	if useFirst {
+		first = moves[r.Intn(len(moves))]
+		first = board.Move{From: first.From, To: first.To, Promotion: first.Promotion} // as read back from the table: coordinates only
+		fn = board.First(first, fn)
+	}
+	in := append([]board.Move(nil), moves...)
+	ml := board.NewMoveList(in, fn)
+	c.Eval(1)
+	c.Count("movelists", 1)
+	if ml.Size() != len(moves) {
+		c.Violate("movelist:size", "MoveList of %d moves reports size %d", len(moves), ml.Size())
+	}
+	seen := map[board.Move]int{}
+	var last board.MovePriority
+	for i := 0; ; i++ {
+		m, ok := ml.Next()
+		if !ok {
+			break
+		}
+		seen[m]++
+		pr := fn(m)
+		if i > 0 && pr > last {
+			c.Violate("movelist:order", "MoveList hands out priority %d after %d in %q", pr, last, p.FEN())
+		}
+		if i == 0 && useFirst && !first.Equals(m) {
+			c.Violate("movelist:first", "preferred move %v is not handed out first (got %v) in %q", first, m, p.FEN())
+		}
+		last = pr
+		if i > len(moves)+2 {
+			c.Violate("movelist:endless", "MoveList hands out more moves than it was given in %q", p.FEN())
+			break
+		}
+	}
+	for _, m := range moves {
+		if seen[m] != 1 {
+			c.Violate("movelist:multiset", "move %v handed out %d times (of %d moves) in %q", m, seen[m], len(moves), p.FEN())
+			break
+		}
+	}
+	if _, ok := ml.Next(); ok {
+		c.Violate("movelist:exhausted", "exhausted MoveList still hands out moves")
+	}
+	// the stable sort used by the plausible-move table: a permutation, stable within equal priorities
+	sorted := append([]board.Move(nil), moves...)
+	board.SortByPriority(sorted, func(m board.Move) board.MovePriority { return prios[m] })
+	idx := map[board.Move]int{}
+	for i, m := range moves {
+		idx[m] = i
+	}
+	cnt := map[board.Move]int{}
+	for i, m := range sorted {
+		cnt[m]++
+		if i > 0 {
+			a, b := sorted[i-1], m
+			if prios[a] < prios[b] || (prios[a] == prios[b] && idx[a] > idx[b]) {
+				c.Violate("movelist:sort", "SortByPriority is not a stable descending sort in %q", p.FEN())
+				break
+			}
+		}
+	}
+	if len(cnt) != len(moves) {
+		c.Violate("movelist:sort", "SortByPriority lost or duplicated moves in %q", p.FEN())
+	}
+}
+
 func runC03(c *fw.Ctx, cs fw.Case) {
 	r := cs.Rand()
+	if cs.Kind == "movelist" {
+		for i := 0; i < cs.N; i++ {
+			moveListCase(c, r)
+		}
+		return
+	}
 	budget := 10000.0
 	if !c.Quick() {
 		budget = 60000
@@ -429,10 +527,11 @@ func init() {
 		Setup:       validateOracle,
 		Timeout:     minutes(15, 120),
 		Cases: func(tier string, seed int64) []fw.Case {
-			return mkCases(nil, "searches", 64, seed, pick(tier, 40, 400))
+			l := mkCases(nil, "searches", 64, seed, pick(tier, 40, 400))
+			return mkCases(l, "movelist", 8, seed, pick(tier, 300, 20000))
 		},
 		Floors: func(string) map[string]int64 {
-			return map[string]int64{"searches": 1500, "root_mate_for_ge3": 20, "root_mate_against_ge2": 5, "draw_inside_tree": 100, "stalemate_inside_tree": 50, "selective_pruned": 100, "drawn_root": 5, "moveless_root": 10}
+			return map[string]int64{"searches": 1500, "root_mate_for_ge3": 20, "root_mate_against_ge2": 5, "draw_inside_tree": 100, "stalemate_inside_tree": 50, "selective_pruned": 100, "drawn_root": 5, "moveless_root": 10, "movelists": 2000}
 		},
 		Run: runC03,
 	})
